@@ -6,7 +6,8 @@ import treeutil as U
 from core import BaseProp, Verdict
 from proto import T
 
-RULE = ('pairs and triples of render-distinct trees: random, related by 1-4 rewrites (commutativity, associativity, repetition, '
+RULE = ('[string level: the two trees written as texts (any spelling, sometimes an empty or blank side) through is_equivalent / contains of the table-backed instance vs the model equivText / containsText] '
+        'pairs and triples of render-distinct trees: random, related by 1-4 rewrites (commutativity, associativity, repetition, '
         'single-license absorption), and same truth table but not rewrite-related (distributivity); asked on a Licensing with a '
         'table (keys and aliases, two exception entries), on one built from the same table given as user records (wrapped symbols), on one '
         'without a table, and on one created in between, as strings, as parsed objects, and as objects parsed by different instances; Spec on the '
@@ -142,6 +143,26 @@ class Prop(BaseProp):
                 w = impl.build_tree(t)
                 if not (l1.contains(w, impl.build_tree([T('sym'), t[1], t[2]])) and l1.contains(w, impl.build_tree([T('sym'), t[3], t[4]]))):
                     return Verdict('spec', case, 'a WITH pair does not contain its parts', impl=t, tags=tags)
+        # the string level against the model's equivText / containsText: the two trees written as texts in any spelling the
+        # grammar allows (the table-backed instance parses them), now and then an empty or blank side
+        r = _random.Random(len(repr(b)) * 3 + len(repr(a)))
+        ta, tb = gen.tree_text(r, a, redundant=0.3), gen.tree_text(r, b, redundant=0.3)
+        if r.random() < 0.08:
+            tb = r.choice(['', ' ', '\t '])
+        if r.random() < 0.04:
+            ta = r.choice(['', '  '])
+        if impl.lower_is_charwise(ta + tb):
+            def ask(fn):
+                try:
+                    return bool(fn())
+                except (impl.le.ExpressionError, TypeError):
+                    return 'raises'
+            gots = [ask(lambda: l1.is_equivalent(ta, tb)), ask(lambda: l1.contains(ta, tb))]
+            ms = drv.call_many([(T('equivtext'), table, ta, tb), (T('containstext'), table, ta, tb)])
+            ms = [x if x == 'raises' else bool(x) for x in ms]
+            if gots != ms:
+                return Verdict('diverge', dict(case, texts=[ta, tb]), 'is_equivalent / contains on strings', impl=gots, model=ms, tags=tags)
+            tags.append('strings=%s' % ('raises' if 'raises' in gots else 'blank' if not (ta.strip() and tb.strip()) else 'answered'))
         if bool(meq) != eq:
             return Verdict('diverge', case, 'is_equivalent', impl=eq, model=meq, tags=tags)
         if bool(mct) != ct:
